@@ -41,7 +41,7 @@ Value& TANHExpression::value(Context & ctx) const
     break;
   case Type::INTEGER:
     if (val.isNull())
-      return val;
+      break;
     v = Value(Numeric(std::tanh(*val.integer())));
     break;
   case Type::NUMERIC:
